@@ -33,6 +33,8 @@ var spPairs = []spPair{
 	{A: "tensor.(StdEng).softMaxLastDimF32", B: "tensor.(StdEng).softMaxLastDimF64", Map: [][2]string{{"math32", "math"}, {"32", "64"}}, Props: []string{"C17"}},
 	{A: "tensor.(StdEng).softMaxInnerDimF32", B: "tensor.(StdEng).softMaxInnerDimF64", Map: [][2]string{{"float32(0)", "0"}, {"math32", "math"}, {"32", "64"}}, Props: []string{"C17"}},
 	{A: "tensor.(StdEng).softMaxBInnerDimF32", B: "tensor.(StdEng).softMaxBInnerDimF64", Map: [][2]string{{"float32(0)", "0"}, {"math32", "math"}, {"32", "64"}}, Props: []string{"C17"}},
+	{A: "tensor.handleFuncOptsF32", B: "tensor.handleFuncOptsF64", Map: [][2]string{{"32", "64"}}, Props: []string{"C20"}},
+	{A: "tensor.prepDataVSF32", B: "tensor.prepDataVSF64", Map: [][2]string{{"32", "64"}}, Props: []string{"C20"}},
 	{A: "tensor.(Float32Engine).checkThree", B: "tensor.(Float64Engine).checkThree", Map: [][2]string{{"32", "64"}}, Props: []string{"C20"}},
 	{A: "tensor.(Float32Engine).checkTwo", B: "tensor.(Float64Engine).checkTwo", Map: [][2]string{{"32", "64"}}, Props: []string{"C20"}},
 	{A: "tensor.(*Dense).Filled", B: "tensor.(*Dense).FilledInplace", Map: [][2]string{{"%0 = $r.Clone().(*tensor.Dense)\n", ""}, {"%0", "$r"}, {"%1", "%0"}, {"%2", "%1"}, {"%3", "%2"}, {"%4", "%3"}, {"%5", "%4"}, {"%6", "%5"}, {"%7", "%6"}, {"%8", "%7"}, {"%9", "%8"}}, Props: []string{"C15"}},
